@@ -231,6 +231,48 @@ def r01_3(ctx):
     return r
 
 
+def r01_5(ctx):
+    r = Rule("R01.5", "final assembly of the props expression: the attributes still pending in the accumulator reach the result on every path",
+             "attributes written after the last spread are dropped when a shortcut returns before they are flushed")
+    fold = C.role_or_fail(ctx, r, "attr_fold")
+    imp = C.role(ctx, "import_fn")
+    if not fold:
+        return r
+    r.saw(fold["path"])
+    idx = HirIndex(fold)
+    # the accumulator: the Vec<PropOrSpread> element of the fold's result tuple, as bound after the fold
+    acc = None
+    for n in walk(fold["body"], enter_closures=False):
+        if n.get("k") == "Let" and n["pat"].get("k") == "PTuple":
+            for p in n["pat"]["pats"]:
+                if p.get("k") == "PBind" and (p.get("ty") or "") == "alloc::vec::Vec<%sPropOrSpread>" % AST:
+                    acc = p
+    asm = None
+    for n in walk(fold["body"], enter_closures=False):
+        if n.get("k") == "Let" and n.get("init") is not None and n["pat"].get("k") == "PBind" and (n["pat"].get("ty") or "") == AST + "Expr" \
+                and any(const_str(x) == "mergeProps" for x in walk(n["init"])):
+            asm = n
+    if acc is None or asm is None:
+        r.ob("assembly of the props expression found", None, C.mloc(fold, fold), "accumulator binding or assembly `let` not recognised: not decided")
+        return r
+    uses = lambda node: any(x.get("k") == "Path" and x["res"].get("r") == "local" and x["res"].get("id") == acc["id"] for x in walk(node))
+    inside = {id(x) for x in walk(asm["init"])}
+    from .c02 import _leaves
+    seen = {}
+    for leaf in _leaves(asm["init"]):
+        flushed_before = [st for st in idx.preceding_stmts(leaf) if id(st) in inside and uses(st)]
+        empty_known = any((not isinstance(f, tuple)) and f.get("k") == "MethodCall" and f["method"] == "is_empty" and uses(f) for f in idx.known_true(leaf))
+        taken_apart = any((not isinstance(f, tuple)) and f.get("k") == "LetExpr" and uses(f["init"]) for f in idx.known_true(leaf))
+        ok = uses(leaf) or bool(flushed_before) or empty_known or taken_apart
+        key = "result `%s`: pending attributes are part of it" % expr_str(leaf)[:40]
+        c = seen.get(key, 0)
+        seen[key] = c + 1
+        r.ob(key if not c else "%s #%d" % (key, c + 1), ok, C.mloc(fold, leaf),
+             ("uses the accumulator" if uses(leaf) else "is an element of the accumulator (matched by `if let`)" if taken_apart else "flushed by an earlier statement of the assembly" if flushed_before else "accumulator known empty") if ok else
+             "this result is produced without looking at `%s`: attributes collected after the last merge argument are lost" % acc["name"])
+    return r
+
+
 def r01_4(ctx):
     r = Rule("R01.4", "attribute value table: string -> whitespace-normalised fresh literal; no value -> true; namespaced name keeps its colon; transformOn helper import",
              "a wrong default or name changes the prop")
@@ -254,7 +296,12 @@ def r01_4(ctx):
         if n.get("k") == "Arm" and pat_str(n["pat"]).startswith("Lit(Str("):
             t = expr_str(n["body"])
             found = True
-            r.ob("a string attribute value is cleaned and rebuilt as a fresh literal", tc is not None and (tc["name"] + "(") in t and "raw: None" in t, C.mloc(fold, n), t[:100])
+            # every string literal built in this arm takes its text from the cleaner (no branch hands the source text through)
+            strs = [x for x in walk(n["body"]) if x.get("k") == "Struct" and x.get("adt") == AST + "Str"]
+            vals = [strip_transparent({f["name"]: f["e"] for f in x["fields"]}.get("value", {})) for x in strs]
+            all_clean = bool(strs) and tc is not None and all(v.get("k") == "Call" and v.get("callee") == tc["path"] for v in vals)
+            r.ob("a string attribute value is cleaned and rebuilt as a fresh literal", all_clean and "raw: None" in t, C.mloc(fold, n),
+                 t[:100] if all_clean else "a string literal in this arm is built from %s, not from the text cleaner's result" % [expr_str(v)[:40] for v in vals if not (v.get("k") == "Call" and tc and v.get("callee") == tc["path"])])
     if not found:
         r.ob("a string attribute value is cleaned and rebuilt as a fresh literal", None, C.mloc(fold, fold), "string arm not found")
     # namespaced name
@@ -279,7 +326,7 @@ def r01_4(ctx):
 
 def rules(ctx):
     from ..engine import only
-    return [r01_1, r01_2, r01_3, r01_4,
+    return [r01_1, r01_2, r01_3, r01_4, r01_5,
             only(c07.r07_6, lambda k: "transform_attrs" in k or k.startswith("JSX attribute literal"), "string attribute values"),
             c11.r11_4]
 
